@@ -76,17 +76,20 @@ Definition all_solutions (ps : list pattern) (F : list triple) : list binding :=
 Definition spec_min (M : list (triple * N)) (gs : list triple) : N :=
   fold_left (fun acc g => match alookup M g with Some e => N.min acc e | None => 0 end) gs INF.
 
-(* one application of the annotated consequence operator to M, joined into M *)
-Definition spec_round (P : list rule) (M : list (triple * N)) : list (triple * N) :=
-  fold_left (fun acc r =>
+(* every consequence of one application of the annotated consequence operator to M: for every rule
+   (with at least one premise) and every binding that matches all premises in M, the instantiated
+   conclusions with the minimum of the premise values *)
+Definition spec_jobs (P : list rule) (M : list (triple * N)) : list (N * triple) :=
+  flat_map (fun r =>
     match prem r with
-    | [] => acc
-    | _ =>
-      fold_left (fun acc b =>
-        let t := spec_min M (inst_list b (prem r)) in
-        fold_left (fun acc f => ajoin f t acc) (inst_list b (concl r)) acc)
-        (all_solutions (prem r) (map fst M)) acc
-    end) P M.
+    | [] => []
+    | _ => flat_map (fun b => map (fun f => (spec_min M (inst_list b (prem r)), f)) (inst_list b (concl r)))
+                    (all_solutions (prem r) (map fst M))
+    end) P.
+
+(* ... joined (max) into M *)
+Definition spec_round (P : list rule) (M : list (triple * N)) : list (triple * N) :=
+  fold_left (fun acc (x : N * triple) => ajoin (snd x) (fst x) acc) (spec_jobs P M) M.
 
 Definition same_map (M J : list (triple * N)) : bool :=
   Nat.eqb (length M) (length J) && forallb (fun x : triple * N => match alookup M (fst x) with Some e => e =? snd x | None => false end) J.
@@ -106,4 +109,108 @@ Definition spec_state (fuel : nat) (P : list rule) (rt : N -> option N) (base : 
   match spec_E fuel P base with
   | None => None
   | Some M => Some (flat_map (fun x : triple * N => match rt (tpred (fst x)) with Some c => [(c, fst x, snd x)] | None => [] end) M)
+  end.
+
+(* ---- the statement of the property at the level of alive facts ------------------------------- *)
+(* `st` is E over `base` restricted to the facts of some component: every entry carries the
+   component of its predicate and its E value (which exceeds now), and every fact that has a
+   derivation supported beyond now and belongs to a component is listed.  (Classically this says
+   In (c,f,e) st <-> rt (tpred f) = Some c /\ now < e /\ is_E P base f e; the second half is phrased
+   with Der so that no maximum has to be chosen - see E_state_iff in StepProofs.v.) *)
+Definition E_state (P : list rule) (base : list (triple * N)) (rt : N -> option N) (now : N) (st : state) : Prop :=
+  (forall c f e, In (c, f, e) st -> rt (tpred f) = Some c /\ now < e /\ is_E P base f e) /\
+  (forall t f c, Der P base t f -> now < t -> rt (tpred f) = Some c -> exists e, In (c, f, e) st).
+
+(* every listed fact is alive at `now` and its expiry is a u64 *)
+Definition alive_base (base : list (triple * N)) (now : N) : Prop :=
+  forall f e, In (f, e) base -> now < e /\ e <= INF.
+
+(* no annotated triple is listed twice with different expiries *)
+Definition functional_base (base : list (triple * N)) : Prop :=
+  forall f e e', In (f, e) base -> In (f, e') base -> e = e'.
+
+(* facts stay listed until they expire, and a re-arrival never shortens the expiry *)
+Definition base_consistent (base base' : list (triple * N)) (now' : N) : Prop :=
+  forall f e, In (f, e) base -> now' < e -> exists e', In (f, e') base' /\ e <= e'.
+
+(* static facts (expiry INF) of the new base were static facts of the old one *)
+Definition static_stable (base base' : list (triple * N)) : Prop :=
+  forall f, In (f, INF) base' -> In (f, INF) base.
+
+(* ---- the quantifier of the property, as boolean predicates on streaming datasets ---------------- *)
+Fixpoint list_eqb {A : Type} (eqb : A -> A -> bool) (l l' : list A) : bool :=
+  match l, l' with
+  | [], [] => true
+  | x :: r, y :: r' => eqb x y && list_eqb eqb r r'
+  | _, _ => false
+  end.
+
+Definition str_eqb : str -> str -> bool := list_eqb N.eqb.
+Definition key := (str * str * str)%type.
+Definition key_eqb (a b : key) : bool :=
+  str_eqb (fst (fst a)) (fst (fst b)) && str_eqb (snd (fst a)) (snd (fst b)) && str_eqb (snd a) (snd b).
+Definition wkey (wt : wtriple) : key := fst wt.
+
+Fixpoint nodupb {A : Type} (eqb : A -> A -> bool) (l : list A) : bool :=
+  match l with
+  | [] => true
+  | x :: r => negb (existsb (eqb x) r) && nodupb eqb r
+  end.
+
+Fixpoint forall2b {A B : Type} (p : A -> B -> bool) (l : list A) (l' : list B) : bool :=
+  match l, l' with
+  | [], [] => true
+  | x :: r, y :: r' => p x y && forall2b p r r'
+  | _, _ => false
+  end.
+
+(* "each window content lists a triple once" *)
+Definition listed_once (w : window) : bool := nodupb key_eqb (map wkey (snd w)).
+
+(* "facts stay listed until they expire", "with its latest arrival time": an entry of the earlier
+   content that is still alive at now' is listed in the later content of the same window, with an
+   arrival time that is not earlier *)
+Definition stays_listed (now' : N) (w w' : window) : bool :=
+  str_eqb (fst (fst w)) (fst (fst w')) && (snd (fst w) =? snd (fst w')) &&
+  forallb (fun wt : wtriple =>
+             if sat_add (snd wt) (snd (fst w)) <=? now' then true
+             else existsb (fun wt' : wtriple => key_eqb (wkey wt) (wkey wt') && (snd wt <=? snd wt')) (snd w'))
+          (snd w).
+
+Definition sgraph_eqb (g g' : sgraph) : bool :=
+  str_eqb (fst g) (fst g') && list_eqb key_eqb (snd g) (snd g').
+
+(* two consecutive contents of a history: the same windows (same IRI and width, listed in the same
+   order), static graphs and output IRIs; alive entries stay listed; every content lists a triple once *)
+Definition window_consistent (S S' : sds) (now' : N) : bool :=
+  forall2b (stays_listed now') (windows S) (windows S') &&
+  forallb listed_once (windows S') &&
+  list_eqb sgraph_eqb (statics S) (statics S') &&
+  list_eqb str_eqb (outputs S) (outputs S').
+
+(* timestamps + width do not saturate u64 *)
+Definition no_overflow (S : sds) : bool :=
+  forallb (fun w : window => forallb (fun wt : wtriple => snd wt + snd (fst w) <? INF) (snd w)) (windows S).
+
+(* no annotated triple is listed twice with different expiries (within a window this is "listed
+   once"; across components it excludes IRI-prefix collisions such as window <a/> with local name
+   "b/p" against component <a/b/> with local name "p") *)
+Definition functional_b (l : list (triple * N)) : bool :=
+  forallb (fun x : triple * N => forallb (fun y : triple * N => negb (triple_eqb (fst x) (fst y)) || (snd x =? snd y)) l) l.
+
+Definition sds_ok (S : sds) (now : N) : bool :=
+  (now <? INF) && no_overflow S && functional_b (translate S now).
+
+(* a history of evaluations: strictly increasing times, consecutive contents window-consistent,
+   every rule conclusion belongs to a component of every dataset *)
+Fixpoint history_ok (P : list rule) (prev : option (sds * N)) (steps : list (sds * N)) : bool :=
+  match steps with
+  | [] => true
+  | (S', now') :: rest =>
+      sds_ok S' now' && routed_rules (route S') P &&
+      match prev with
+      | None => true
+      | Some (S0, now) => (now <? now') && window_consistent S0 S' now'
+      end &&
+      history_ok P (Some (S', now')) rest
   end.
